@@ -182,6 +182,10 @@ theorem ranges_spec (names : List Name) :
     · rintro ⟨x, ⟨n, hn, rfl⟩, rfl⟩; exact hn
     · intro h; exact ⟨Var.plain V, ⟨V, h, rfl⟩, rfl⟩
 
+theorem sKeys_nev {G : MG Name} {w : World} {s : Name → Bool} {ev : Event} {g : MG Var} {nev : Event}
+    (facts : SWFacts G w s ev g nev) (hsk : SKeys s ev) : SKeys s nev :=
+  fun n hn => (facts.keyNames n).2 (hsk n hn)
+
 section
 variable {G : MG Name} {w : World} {s : Name → Bool} {ev : Event} {g : MG Var} {nev : Event}
 
@@ -270,7 +274,7 @@ theorem line9_leaf (M : Model) (ν : BaseValues) (dom : Name → Nat) (hM : Comp
 /-! ## line 6 -/
 
 /-- a node of a district's Markov pillow never carries the name of a node of the district -/
-theorem pillow_name_ne (facts : SWFacts G w s ev g nev) {dordf : List Var → List Var} (hdo : PermDistrict dordf) (D : List Var)
+theorem pillow_name_ne (facts : DFacts G s g nev) {dordf : List Var → List Var} (hdo : PermDistrict dordf) (D : List Var)
     (hD : D ∈ (nsiSubgraph g).districts) (pillow : List Var) (hp : g.markovPillow (dordf D) = .ok pillow)
     (v : Var) (hv : v ∈ pillow) (n : Var) (hnD : n ∈ D) : v.name ≠ n.name := by
   intro hin
@@ -284,13 +288,11 @@ theorem pillow_name_ne (facts : SWFacts G w s ev g nev) {dordf : List Var → Li
   by_cases hvnsi : isNotSelfIntervened v = true
   · have : v = n := facts.inj v hvg n hng hvnsi hnsi hin
     exact hvD ((hdo D).mem_iff.2 (this ▸ hnD))
-  · have := (facts.selfIntervened v hvg (by simpa using hvnsi)).2
-    rw [hin] at this
-    exact facts.notW n hng hnsi this
+  · exact facts.sep v hvg (by simpa using hvnsi) n hng hnsi hin
 
 /-- the value line 6 gives a node of a district: the event's value when the node is a key, the unstarred value otherwise — in
 both cases the value `s` prescribes, because `s` marks key names only -/
-theorem nodeEvent_district (facts : SWFacts G w s ev g nev) (hsk : SKeys s ev)
+theorem nodeEvent_district (facts : DFacts G s g nev) (hsk : SKeys s nev)
     (hnsiK : ∀ k ∈ nev.keys, isNotSelfIntervened k = true) (n : Var) (hn : n ∈ (nsiSubgraph g).nodes) :
     nodeEvent n nev = ⟨n.name, s n.name⟩ := by
   obtain ⟨hng, hnsi⟩ := (mem_nsiSubgraph_iff g n).1 hn
@@ -300,7 +302,7 @@ theorem nodeEvent_district (facts : SWFacts G w s ev g nev) (hsk : SKeys s ev)
   | false => rfl
   | true =>
     exfalso
-    have hb : n.name ∈ nev.keys.map (·.name) := (facts.keyNames n.name).2 (hsk n.name hs)
+    have hb : n.name ∈ nev.keys.map (·.name) := hsk n.name hs
     obtain ⟨k, hk, hkn⟩ := List.mem_map.1 hb
     have : k = n := facts.inj k (facts.keysNodes k hk) n hng (hnsiK k hk) hnsi hkn
     obtain ⟨v, hv⟩ := (mem_keys_iff nev k).1 hk
@@ -310,8 +312,8 @@ theorem nodeEvent_district (facts : SWFacts G w s ev g nev) (hsk : SKeys s ev)
 subscripts, no key named in it, values as `s` says -/
 theorem frag_of_district {ordf : List World → List World} (hord : PermOrder ordf) {dordf : List Var → List Var}
     (hdo : PermDistrict dordf) (hG : G.WF) (hdl : ∀ e ∈ G.di, e.1 ≠ e.2) (hbl : ∀ e ∈ G.bi, e.1 ≠ e.2)
-    (hev : GoodEv G ev) (hcg : makeCounterfactualGraph ordf G ev = .ok (g, some nev)) (facts : SWFacts G w s ev g nev)
-    (hsk : SKeys s ev) (hnsiK : ∀ k ∈ nev.keys, isNotSelfIntervened k = true)
+    (hev : GoodEv G ev) (hcg : makeCounterfactualGraph ordf G ev = .ok (g, some nev)) (facts : DFacts G s g nev)
+    (hsk : SKeys s nev) (hnsiK : ∀ k ∈ nev.keys, isNotSelfIntervened k = true)
     {evs : List Event} (hevs : eventsOfEachDistrict dordf g nev = .ok evs) (D : List Var)
     (hD : D ∈ (nsiSubgraph g).districts) (x : Event) (hx : eventsOfDistrict g (dordf D) nev = .ok x) :
     ∃ pillow, g.markovPillow (dordf D) = .ok pillow ∧
@@ -385,7 +387,7 @@ theorem frag_of_district {ordf : List World → List World} (hord : PermOrder or
     exact List.mem_map.2 ⟨n, (hdo D).mem_iff.1 hn, rfl⟩
 
 /-- the probability of a district event under the reading `τ`: the joint local event of the district's variables -/
-theorem probEvent_district (M : Model) (ν : BaseValues) (hM : Compatible M G) (facts : SWFacts G w s ev g nev)
+theorem probEvent_district (M : Model) (ν : BaseValues) (hM : Compatible M G) (facts : DFacts G s g nev)
     {dordf : List Var → List Var} (hdo : PermDistrict dordf) (D : List Var) (hD : D ∈ (nsiSubgraph g).districts)
     (pillow : List Var) (hp : g.markovPillow (dordf D) = .ok pillow) (x : Event)
     (hxeq : x = Event.ofList ((dordf D).map fun n => (atWorld n.name (ivsCanon (toInterventions pillow)), nodeEvent n nev)))
@@ -577,7 +579,7 @@ theorem lines4to9_sound_sw (hM : Compatible M G) (hn : ∀ pmf ∈ M.noise, pmf.
                   exact mapM_ok_mem _ _ _ hevs x hx
                 obtain ⟨D, hD, hDx⟩ := hxD
                 obtain ⟨pillow, _, _, hfrx, hwU, hnoself, hkD⟩ :=
-                  frag_of_district hord hdo hG hdl hbl hfr.good hcg facts hsk hkeysnsi hevs D hD x hDx
+                  frag_of_district hord hdo hG hdl hbl hfr.good hcg facts.toD (sKeys_nev facts hsk) hkeysnsi hevs D hD x hDx
                 refine hrec _ _ x f (frag2_restrictS hfrx) (sKeys_restrictS s x)
                   (violates_false_of_noSelf hfrx.keysIn hfrx.good.ok.names hnoself) hf τ ?_ ?_
                 · intro k hkx hs
@@ -594,11 +596,11 @@ theorem lines4to9_sound_sw (hM : Compatible M G) (hn : ∀ pmf ∈ M.noise, pmf.
                 intro D hD x hDx
                 have hevs' : eventsOfEachDistrict dordf cf nev = .ok evs := hevs
                 obtain ⟨pillow, hp, hxeq, _⟩ :=
-                  frag_of_district hord hdo hG hdl hbl hfr.good hcg facts hsk hkeysnsi hevs' D hD x hDx
-                exact probEvent_district M ν hM facts hdo D hD pillow hp x hxeq
-                  (fun n hnD => nodeEvent_district facts hsk hkeysnsi n ((districts_cover _ hwfn n).2 ⟨D, hD, hnD⟩)) τ
+                  frag_of_district hord hdo hG hdl hbl hfr.good hcg facts.toD (sKeys_nev facts hsk) hkeysnsi hevs' D hD x hDx
+                exact probEvent_district M ν hM facts.toD hdo D hD pillow hp x hxeq
+                  (fun n hnD => nodeEvent_district facts.toD (sKeys_nev facts hsk) hkeysnsi n ((districts_cover _ hwfn n).2 ⟨D, hD, hnD⟩)) τ
                   (fun n hnD => hτn n ((districts_cover _ hwfn n).2 ⟨D, hD, hnD⟩))
-              rw [hstep1, hstep2, ← mass_districts M hM hn facts _ hT τ]
+              rw [hstep1, hstep2, ← mass_districts M hM hn facts.toD _ hT τ]
               rw [prob_eq_local M hM.topoOrder _ τ _
                 (localSet_world M ν hM facts hwc _ hT w (fun _ h => h) (fun _ _ h => h) τ hτw)]
       · split at h
@@ -797,7 +799,7 @@ theorem lines4to9_not_unid_sw {G : MG Name} (hG : G.WF) (hdl : ∀ e ∈ G.di, e
                 exact mapM_ok_mem _ _ _ hevs x hx
               obtain ⟨D, hD, hDx⟩ := hxD
               obtain ⟨pillow, _, _, hfrx, _, hnoself, _⟩ :=
-                frag_of_district hord hdo hG hdl hbl hfr.good hcg facts hsk hkeysnsi hevs D hD x hDx
+                frag_of_district hord hdo hG hdl hbl hfr.good hcg facts.toD (sKeys_nev facts hsk) hkeysnsi hevs D hD x hDx
               exact hrec _ _ x hfrx (violates_false_of_noSelf hfrx.keysIn hfrx.good.ok.names hnoself) hxe
             | ok fs => rw [hm] at h; cases h
       · split at h
